@@ -102,6 +102,14 @@ def showRes (p : Profile) (ty : String) (r : Res St Unit) : String :=
   | .err k s => s!"err:{k} rest=0 {showSt s} W={rewrite p ty s}"
   | .panic c s => s!"panic:{c} rest=0 {showSt s} W={rewrite p ty s}"
 
+/-- `A=1/0`: the capacity-only acceptance predicate of Model/Bytes for the receiver's ORIGINAL capacity (HAL layouts) -/
+def acceptTag (s0 : St) (bs : Bytes) : String :=
+  match s0.leaves with
+  | [.vec v] => if vecAccept v.capacity bs then " A=1" else " A=0"
+  | [.scalar v] => if scalarAccept v.capacity bs then " A=1" else " A=0"
+  | [.mat v] => if matAccept v.capacity bs then " A=1" else " A=0"
+  | _ => ""
+
 def handle (ts : List String) : String :=
   match ts with
   | "read" :: rest =>
@@ -109,6 +117,19 @@ def handle (ts : List String) : String :=
     match readerOf ty with
     | none => "bad-type"
     | some r => showRes (prof rest) ty (r (parseSt rest) (parseHex ((kv rest "in").getD "-")))
+  | "seq" :: rest =>
+    -- successive reads into one receiver: `in=<hex>;<hex>;…` → answers separated by ` | `
+    let ty := (kv rest "type").getD ""
+    match readerOf ty with
+    | none => "bad-type"
+    | some r =>
+      let streams := (((kv rest "in").getD "-").splitOn ";").map parseHex
+      let s0 := parseSt rest
+      let hal := ty == "vec" || ty == "scalar" || ty == "mat"
+      let step := fun (acc : St × List String) (bs : Bytes) =>
+        let res := r acc.1 bs
+        (res.state, acc.2 ++ [showRes (prof rest) ty res ++ (if hal then acceptTag s0 bs else "")])
+      " | ".intercalate (streams.foldl step (s0, [])).2
   | "write" :: rest =>
     let ty := (kv rest "type").getD ""
     let s := parseSt rest
